@@ -516,6 +516,26 @@ Fixpoint rename_from (i : N) (prels : list (str * nat)) (rIds : list str) (names
   end.
 Definition rename_slide_parts prels rIds names := rename_from 1%N prels rIds names.
 
-(** _next_slide_partname: one more than the number of p:sldId entries; the package is
-    not consulted *)
-Definition next_slide_partname (n_sldId : nat) : str := slide_name (N.of_nat n_sldId + 1)%N.
+(** the part names in the package once rename_slide_parts has returned or raised: the
+    renames that precede the first rId that does not resolve have happened *)
+Fixpoint rename_effect_from (i : N) (prels : list (str * nat)) (rIds : list str) (names : list str)
+  : list str :=
+  match rIds with
+  | [] => names
+  | rId :: r =>
+      match lookup_rel rId prels with
+      | None => names
+      | Some p => rename_effect_from (i + 1)%N prels r (set_nth p (slide_name i) names)
+      end
+  end.
+Definition rename_effect prels rIds names := rename_effect_from 1%N prels rIds names.
+
+(** _next_slide_partname (since repair 086e8ef1): the conventional name, one more than the
+    number of p:sldId entries, unless a part reachable in the package ([names]: the part
+    name of every part OpcPackage.iter_parts yields) already carries it; then
+    OpcPackage.next_partname over the same parts, with its downward search.  A part
+    object always has its package (the None test of the code never fires). *)
+Definition next_slide_partname (n_sldId : nat) (names : list str) : res str :=
+  let cand := slide_name (N.of_nat n_sldId + 1)%N in
+  if mem_str cand names then next_partname s_slide_pre s_xml_post names
+  else packuri_new cand.
